@@ -187,6 +187,8 @@ def params_of(e, acc=None):
 def fval(x):
     """Python/NumPy scalar -> float, or None if it is not a finite scalar."""
     try:
+        if np.iscomplexobj(x):
+            return None          # a complex result means the point is outside the real domain
         a = np.asarray(x, dtype=float)
         if a.size != 1:
             return None
@@ -291,3 +293,75 @@ def vectorised_worklist():
         out.append((e, list(x) + [Variable("zz_extra")]))
         out.append((e, [x[1], x[0], x[2]]))
     return out
+
+
+def natkey(name):
+    """Natural order of names (digit runs compare as numbers), independent of the implementation."""
+    import re
+    return [(0, int(t), "") if t.isdigit() else (1, 0, t) for t in re.findall(r"\d+|\D+", name)]
+
+
+def orders(vs, extras, rng):
+    """Orderings of V that stress layout assumptions: random shuffles plus the near-sorted
+    ones a fast path is most likely to mistake for the natural layout (interior swap,
+    rotation, reversal, extras interleaved or in front)."""
+    nat = sorted(vs, key=lambda v: natkey(v.name))
+    k = rng.randrange(7)
+    if k == 0 or len(nat) < 3:
+        V = nat + extras
+        rng.shuffle(V)
+        return V
+    if k == 1:
+        return extras + nat
+    if k == 2:
+        return nat[::-1] + extras
+    if k == 3:      # swap two interior neighbours, end points stay where they are
+        V = list(nat)
+        i = rng.randrange(1, len(V) - 1) if len(V) > 3 else 1
+        j = min(i + 1, len(V) - 2) if len(V) > 3 else 1
+        if i != j:
+            V[i], V[j] = V[j], V[i]
+        elif len(V) == 3:
+            V[0], V[1] = V[1], V[0]
+        return extras + V
+    if k == 4:      # extras inside the block
+        V = list(nat)
+        for ex in extras:
+            V.insert(rng.randrange(1, len(V)), ex)
+        return V
+    if k == 5:      # rotation
+        r = rng.randrange(1, len(nat))
+        return nat[r:] + extras + nat[:r]
+    V = list(nat)   # random interior permutation, end points fixed
+    mid = V[1:-1]
+    rng.shuffle(mid)
+    return extras[:1] + [V[0]] + mid + [V[-1]] + extras[1:]
+
+
+
+
+def corpus(rng, tier, n_random, profiles=("poly", "smooth", "smooth", "all"), depths=(2, 3, 4),
+           focus_profile="all", focus_scale=1.0, errors=None, pool_kwargs=None):
+    """Expressions for the differential channels: first the FOCUSED corpus (every reduction /
+    leaf kind under every one-node context - constant on either side of each operator, each
+    power, each function; in the thorough tier also every pair of stacked contexts), then
+    n_random random trees.  Yields (g, e).  All randomness derives from rng."""
+    import random as _r
+    import gen as _gen
+    probe = _gen.Gen(_r.Random(0), profile=focus_profile, **({"pool": _gen.Pool(_r.Random(0), **pool_kwargs)} if pool_kwargs else {}))
+    size = probe.focused_size()
+    n_focus = int(size * focus_scale) if tier == "quick" else min(size * 12, 12000)
+    for i in range(n_focus + n_random):
+        r = _r.Random(rng.random())
+        focused = i < n_focus
+        prof = focus_profile if focused else rng.choice(list(profiles))
+        pool = _gen.Pool(r, with_params=(prof == "all"), **pool_kwargs) if pool_kwargs else None
+        g = _gen.Gen(r, profile=prof, pool=pool)
+        try:
+            e = g.focused(i) if focused else g.expr(rng.choice(list(depths)))
+        except Exception as ex:
+            if errors is not None:
+                k = "gen:" + type(ex).__name__
+                errors[k] = errors.get(k, 0) + 1
+            continue
+        yield g, e
